@@ -25,6 +25,7 @@ pub fn lit(p: &mut Toks) -> String {
 pub fn direct(ctx: &mut Ctx) {
     match ctx.prop.as_str() {
         "C18" => random::direct(ctx),
+        "C05" => props::direct_c05(ctx),
         "C07" => scalar::direct_c07(ctx),
         "C03" => scalar::direct_c03(ctx),
         _ => (),
